@@ -51,7 +51,7 @@ RULE = (
     "a case is one call make_matching_sequence(required, *patterns, depth_limit, symbol_priority). Strata: (single) EVERY "
     "syntax tree with 1..4 nodes (quick) / 1..5 (thorough) over leaves {a, b, c, '.'} rendered to text, every 4th also with "
     "a trailing ' $', x EVERY required list of length 0..3 over {a, b, c} x depth_limit {0, 1, 3}, and for patterns with a wildcard and "
-    "depth_limit > 0 also with symbol_priority [c, a] (thorough also [p, b]) - exhaustive; (pairs) VERIF_SEED-sampled sets of two such patterns (<= 4 nodes "
+    "depth_limit > 0 also with symbol_priority [c, a] (thorough also [p, b]) - exhaustive; (nested) EVERY pattern (inner)op tail whose inner group starts or ends with a repetition (960 patterns of 5-8 nodes) x every required list of length 0..3 (thorough 0..4) x depth_limit {0, 1, 3} - exhaustive; (pairs) VERIF_SEED-sampled sets of two such patterns (<= 4 nodes "
     "each; thorough <= 5) with a random required list, depth limit and priority - sampled; (shape) EVERY union of two symbol chains of "
     "1..2 and 1..4 (thorough 1..5) symbols over {a, b, c} x every required list of length 0..2 (thorough 0..3) x depth "
     "{0, 1, 3} - exhaustive, the shape in which consuming a required symbol "
@@ -131,6 +131,20 @@ def _converge_pool():
     return out
 
 
+def _nested_pool():
+    """(inner)op tail, where the inner group begins or ends with a repetition itself: `(a* b)*`, `(a b*)* c`, `(a? b)+` ...
+    (a construction that lets a repetition share its start or final node with the group it sits in goes wrong here;
+    these trees have 5-8 nodes, beyond the exhaustive single-pattern stratum)"""
+    out = []
+    inners = ["{x}* {y}", "{x} {y}*", "{x}+ {y}", "{x} {y}+", "{x}? {y}", "{x} {y}?", "{x}* {y}*", "{x}* | {y}", "{x} | {y}*", "({x} {y})* {x}"]
+    for inner in inners:
+        for x, y in itertools.permutations(["a", "b", "c", "."], 2):
+            for op in ("*", "+"):
+                for tail in ("", " c", " a", " $"):
+                    out.append("(%s)%s%s" % (inner.format(x=x, y=y), op, tail))
+    return out
+
+
 def _real_picture_lists(max_pics, groups):
     out = [[]]
     for n in range(1, max_pics + 1):
@@ -184,6 +198,9 @@ def plan(tier, seed):
     conv = _converge_pool()
     for i in range(0, len(conv), 48):
         cases.append({"kind": "converge", "lo": i, "hi": min(len(conv), i + 48), "w": 48 * 4 * 3.0})
+    nested = _nested_pool()
+    for i in range(0, len(nested), 24):
+        cases.append({"kind": "nested", "req": 3 if tier == "quick" else 4, "lo": i, "hi": min(len(nested), i + 24), "w": 24 * 40 * 3 * 2.0})
     nlists = len(_real_picture_lists(p["real_pics"], p["frag_groups"]))
     n_extra = len([1 for o in G.source_patterns().values() if any("test_cases" in x for x in o)])
     for text, lvls in _distinct_level_texts():
@@ -377,6 +394,15 @@ def _run_case(case, ctx):
                 for d in DEPTHS:
                     _judge(ctx, req, [pool[i]], d, [], "shape")
         ctx.sample({"stratum": "shape", "pattern": pool[case["lo"]], "required": "every list of length 0..%d over a,b,c" % case["req"], "depth_limit": DEPTHS})
+    elif kind == "nested":
+        pool = _nested_pool()
+        reqs = _required_lists(case["req"])
+        for i in range(case["lo"], case["hi"]):
+            ctx.count("nested_patterns")
+            for req in reqs:
+                for d in DEPTHS:
+                    _judge(ctx, req, [pool[i]], d, [], "nested")
+        ctx.sample({"stratum": "nested", "pattern": pool[case["lo"]], "required": "every list of length 0..%d over a,b,c" % case["req"], "depth_limit": DEPTHS})
     elif kind == "converge":
         pool = _converge_pool()
         for i in range(case["lo"], case["hi"]):
@@ -426,6 +452,8 @@ def floor(agg, tier):
         miss.append("single stratum incomplete: %d of %d patterns" % (c.get("single_patterns", 0), exp_single))
     if c.get("converge_patterns", 0) != len(_converge_pool()):
         miss.append("converge stratum incomplete: %d of %d patterns" % (c.get("converge_patterns", 0), len(_converge_pool())))
+    if c.get("nested_patterns", 0) != len(_nested_pool()):
+        miss.append("nested stratum incomplete: %d of %d patterns" % (c.get("nested_patterns", 0), len(_nested_pool())))
     exp_shape = len(_shape_pool(p["shape_long"]))
     if c.get("shape_patterns", 0) != exp_shape:
         miss.append("shape stratum incomplete: %d of %d patterns" % (c.get("shape_patterns", 0), exp_shape))
